@@ -34,6 +34,19 @@ def tagged(i):
     return p if p.find(b"\xaa\x55", 2) == -1 else None
 
 
+_aa_tags = []
+
+
+def aa_tags():
+    """Tags whose packet ends in a checksum byte 0xAA (the first half of a marker)."""
+    if not _aa_tags:
+        for i in range(60000):
+            p = tagged(i)
+            if p is not None and p[19] == 0xAA:
+                _aa_tags.append(i)
+    return _aa_tags
+
+
 def noise(rng, kind):
     if kind == "free":
         n = rng.choice([1, 2, 5, 19, 20, 21, 60, 100, 101, 300, 2000, 16384]) if rng.random() < 0.8 else rng.randrange(1, 4000)
@@ -68,8 +81,18 @@ def gen(rng, idx, tier):
     tag = rng.randrange(0, 40000)
     enabled = [k for k in ("free", "aa", "ends_aa", "marker", "half", "corrupt", "trunc") if rng.random() < 0.6] or ["free"]
     long_noise = tier == "thorough" and idx % 50 == 0
+    cut_after = []
     for _ in range(n):
         k = rng.random()
+        if k < 0.08:
+            # a packet whose checksum byte is AA, then marker-free noise that starts with 55: once the packet has been
+            # consumed its AA is gone, so a correct client sees no marker here, wherever the read boundaries fall
+            p = tagged(rng.choice(aa_tags()))
+            segs.append(["pkt", p.hex()])
+            cut_after.append(sum(len(x[1]) // 2 for x in segs))
+            nb = b"\x55" + noise(rng, "free")[:rng.choice([0, 1, 3, 10, 16, 17, 18, 30])]
+            segs.append(["noise_55", nb.hex()])
+            continue
         if k < 0.55:
             p = None
             while p is None:
@@ -114,7 +137,21 @@ def gen(rng, idx, tier):
         size = rng.choice([99, 100, 101, 20, 21, 19])
         chunks = [size] * (total // size + 1)
         mode = "fixed%d" % size
+    if cut_after and rng.random() < 0.7:
+        # make sure a read ends exactly where such a packet ends
+        bounds = set()
+        pos = 0
+        for c in chunks:
+            pos += c
+            bounds.add(pos)
+        total = sum(len(p) for p in packets)
+        bounds |= set(cut_after)
+        bl = sorted(b for b in bounds if 0 < b <= total)
+        chunks = [b - a for a, b in zip([0] + bl, bl + [total]) if b > a]
+        mode += "+cut_after_aa"
     gaps = [rng.choice([0.0, 1e-5, 1e-3, 0.02]) for _ in range(rng.randrange(1, 6))]
+    if cut_after:
+        gaps = [g if g > 0 else 1e-5 for g in gaps]          # separate reads, not one merged delivery
     entry = {"a": "accept", "lat": 0.001, "stream": segs, "chunks": chunks, "gaps": gaps, "start": 0.001}
     return {"client": "waveshare", "config": {}, "script": [entry], "ops": [{"at": 0.0, "op": "connect", "id": 0}],
             "cb": {}, "knobs": {"min_end": 1.0, "tail": 5.0, "max_end": 600.0, "retain": True}, "mode": mode}
@@ -160,12 +197,16 @@ def execute(plan):
     last_valid_end = None
     st = dict(o.fired)
     must = 0
+    prev_clean = True
     for kind_, hx in segs:
         b = bytes.fromhex(hx)
         if kind_ == "pkt":
             dmg = stream[damage_start:off]
-            lead = stream[damage_start - 1:damage_start] if damage_start > 0 else b""
+            # the last byte of the preceding valid packet can only take part in a marker if that packet may not have
+            # been consumed as a packet (it followed damage that contains a marker)
+            lead = stream[damage_start - 1:damage_start] if (damage_start > 0 and not prev_clean) else b""
             clean = (lead + dmg).find(b"\xaa\x55") == -1
+            prev_clean = clean
             if clean:
                 must += 1
                 if b not in delivered:
